@@ -26,11 +26,19 @@ ASSUMPTIONS = ['Reference objective / analytic gradient in mc/refmodel/lsml_ref.
 BOUNDS = {'quick': dict(K=8, datasets=['S2', 'S3u', 'S5']), 'thorough': dict(K=25, datasets=list(data.THOROUGH))}
 
 
+def illcond(d):
+    """SPD array with condition number 1e10 (eigen-directions from the fixed SPD matrix, eigenvalues log-spaced 1e-5..1e5)."""
+    _, Q = np.linalg.eigh(data.spd(d))
+    return (Q * np.logspace(-5, 5, d)).dot(Q.T)
+
+
 def V(site, clause, msg, triggers=(), **detail):
     return dict(site=site, clause=clause, msg=msg, triggers=list(triggers), detail=detail)
 
 
 WEIGHTS = ['none', 'const5', 'ramp', 'ramp_list', 'ramp64']
+# (an SPD array with condition number 1e10 was tried as a further option: on the unchanged tree LSML's fixed step grid and the
+# graphical lasso both stop being reliable there, so it cannot separate a defect from solver limits and is not part of the alphabet)
 PRIORS = ['identity', 'covariance', 'random', 'array', 'array_F']      # array_F: the same SPD array, Fortran-ordered
 
 
